@@ -185,6 +185,18 @@ func ruleKeysetGuard(c *Ctx, r *Reporter) {
 
 // revisionNonZeroFact: block has fact `<obj>.revision != 0` for the parameter with the given name.
 func revisionGuard(fn *ssa.Function, b *ssa.BasicBlock, param string) bool {
+	// the parameter by position: reindex(primaryKey, old, new)
+	var pv *ssa.Parameter
+	switch param {
+	case "old":
+		if len(fn.Params) >= 4 {
+			pv = fn.Params[2]
+		}
+	case "new":
+		if len(fn.Params) >= 4 {
+			pv = fn.Params[3]
+		}
+	}
 	for _, f := range factsAt(b) {
 		bo, ok := f.Cond.(*ssa.BinOp)
 		if !ok {
@@ -198,15 +210,19 @@ func revisionGuard(fn *ssa.Function, b *ssa.BasicBlock, param string) bool {
 			if fa, ok := p.(*ssa.FieldAddr); ok {
 				if _, fld, _ := fieldOf(fa); fld == "revision" {
 					root := derefLocal(fa.X)
-					if a, ok := root.(*ssa.Alloc); ok && a.Comment == param {
-						isRev = true
+					if a, ok := root.(*ssa.Alloc); ok && pv != nil {
+						for _, st := range storesTo(fn, a) {
+							if st.Val == ssa.Value(pv) {
+								isRev = true
+							}
+						}
 					}
 				}
 			}
 		}
 		if fl, ok := bo.X.(*ssa.Field); ok {
 			if _, fld, _ := fieldOf(fl); fld == "revision" {
-				if p, ok := fl.X.(*ssa.Parameter); ok && p.Name() == param {
+				if p, ok := fl.X.(*ssa.Parameter); ok && p == pv {
 					isRev = true
 				}
 			}
@@ -340,11 +356,14 @@ func ruleReindexSiblings(c *Ctx, r *Reporter) {
 						if ec, ok := e.(*ssa.Call); ok && c.calleeName(ec) == "statedb.encodeNonUniqueKey" && stripConv(ec.Call.Args[1]) == ssa.Value(cl.Params[0]) {
 							// first arg: the captured idKey; guarded by unique == false
 							if p, ok := isLoad(ec.Call.Args[0]); ok {
-								if fv, ok := p.(*ssa.FreeVar); ok && fv.Name() == "idKey" {
+								if fv, ok := p.(*ssa.FreeVar); ok && freeVarHolds(fn, cl, fv, func(v ssa.Value) bool { return v == ssa.Value(fn.Params[1]) }) {
 									pred := phi.Block().Preds[i]
 									for _, f := range factsAt(pred) {
 										if q, ok := isLoad(f.Cond); ok && !f.Val {
-											if fv2, ok := q.(*ssa.FreeVar); ok && fv2.Name() == "unique" {
+											if fv2, ok := q.(*ssa.FreeVar); ok && freeVarHolds(fn, cl, fv2, func(v ssa.Value) bool {
+												_, ok := loadOfField(v, "partIndexTxn", "unique")
+												return ok
+											}) {
 												enc = true
 											}
 										}
@@ -741,9 +760,22 @@ func ruleWaitRemoveReturn(c *Ctx, r *Reporter) {
 	r.check(held && nDefer == 1, name+"|mutex held for the whole call", c.posStr(fn.Pos()), "ws.mu is locked at entry and released only by the deferred Unlock", "Wait does not hold ws.mu for its whole duration: a concurrent Wait/Add/Merge rebuilds the shared select-case buffer or the set while this call maps chosen indexes back to channels")
 	// (2) the result variable
 	var cell *ssa.Alloc
+	// the result variable: a slice-of-channels local captured by a deferred closure
 	for _, ia := range allInstrs(fn) {
-		if a, ok := ia.In.(*ssa.Alloc); ok && a.Comment == "closedChannels" {
-			cell = a
+		d, ok := ia.In.(*ssa.Defer)
+		if !ok {
+			continue
+		}
+		if mc, ok := d.Call.Value.(*ssa.MakeClosure); ok {
+			for _, b := range mc.Bindings {
+				if a, ok := b.(*ssa.Alloc); ok {
+					if sl, ok := pointee(a.Type()).Underlying().(*types.Slice); ok {
+						if _, ok := sl.Elem().Underlying().(*types.Chan); ok {
+							cell = a
+						}
+					}
+				}
+			}
 		}
 	}
 	if cell == nil {
@@ -1221,4 +1253,31 @@ func ruleReprEq(c *Ctx, r *Reporter) {
 			r.bad(key, c.posStr(instrPos(badPos)), "the equality predicate "+bad+": two values holding the same contents in different internal representations (empty tree vs no tree, singleton vs tree) compare unequal")
 		}
 	}
+}
+
+// freeVarHolds: the captured variable fv of closure cl (created in fn) is a
+// cell whose stored value satisfies pred.
+func freeVarHolds(fn, cl *ssa.Function, fv *ssa.FreeVar, pred func(ssa.Value) bool) bool {
+	for _, ia := range allInstrs(fn) {
+		mc, ok := ia.In.(*ssa.MakeClosure)
+		if !ok || mc.Fn != ssa.Value(cl) {
+			continue
+		}
+		for i, v := range cl.FreeVars {
+			if v != fv || i >= len(mc.Bindings) {
+				continue
+			}
+			if a, ok := mc.Bindings[i].(*ssa.Alloc); ok {
+				for _, st := range storesTo(fn, a) {
+					if pred(st.Val) {
+						return true
+					}
+				}
+			}
+			if pred(mc.Bindings[i]) {
+				return true
+			}
+		}
+	}
+	return false
 }
